@@ -25,10 +25,20 @@ def gap_Y(run, cfgs, rotors, n_samples, big_m=False):
     worst_sum = 0.0
     for (L, P, spins) in cfgs:
         w = spherical.Wigner(L, mp_max=P)
-        for lab, R in rotors:
+        batch = {}
+        for s in spins:   # the same rotors in ONE vectorised call: each slice must be the single-rotor result
+            try:
+                batch[s] = w.sYlm(s, quaternionic.array(np.array([R for _, R in rotors])))
+            except Exception as e:
+                run.violation("sYlm-raised", "Wigner.sYlm", {"ell_max": L, "mp_max": P, "s": s, "batched": True, "min_sq": 1.0}, "values", repr(e))
+        for i_rot, (lab, R) in enumerate(rotors):
             for s in spins:
                 try:
                     Y = w.sYlm(s, quaternionic.array(R))
+                    if s in batch and not np.array_equal(batch[s][i_rot], Y, equal_nan=True):
+                        k = int(np.flatnonzero(batch[s][i_rot] != Y)[0])
+                        run.violation("sYlm-batched-differs-from-single", "Wigner.sYlm", {"ell_max": L, "mp_max": P, "s": s, "R": list(R), "rotors_in_batch": [list(r) for _, r in rotors][max(0, i_rot - 1):i_rot + 1],
+                                                                                      "flat_index": k, **band_info(R)}, str(complex(Y[k])), str(complex(batch[s][i_rot][k])))
                 except Exception as e:
                     run.violation("sYlm-raised", "Wigner.sYlm", {"ell_max": L, "mp_max": P, "s": s, "R": list(R), **band_info(R)}, "values", repr(e))
                     continue
@@ -98,6 +108,9 @@ def check(run):
     gap_Y(run, [(8, 8, list(range(-8, 9)))], rotors, 3)
     gap_Y(run, [(48, 6, [-6, -3, -2, 0, 1, 5])], rotors[::2], 2)
     gap_Y(run, [(12, 3, [-3, 2])], subnormal_band_rotors(), 2)
+    runs = [(f"near-pole-run-{k}", (math.cos(0.2 * k), (1 + 2 * k) * 1e-9, -(1 + k) * 1e-9, math.sin(0.2 * k))) for k in range(4)] + \
+           [(f"antipole-run-{k}", ((1 + k) * 2e-9, math.cos(0.3 * k), math.sin(0.3 * k), (1 + k) * 1e-9)) for k in range(3)]
+    gap_Y(run, [(40, 2, [-2, 0, 1])], runs, 3)
     big = 1024 if quick else 1400
     # colatitude sweep at the largest ell: addition theorem on every ell (cheap) + oracle at large |m|; deeper when a proof
     # obligation or the bitwise correspondence is broken (failing-input search)
